@@ -667,7 +667,7 @@ def _steps_info(c: CompilerNF, e):
     if d is None or "steps" not in d:
         return None, None
     sref = d["steps"][0]
-    if sref[0] != "ref" or not isinstance(c.I.obj(sref), HList):
+    if nf.list_leaves(c.I, sref) is None:
         return sref, None
     segs = nf.list_content(c.I, sref, c.tree)
     return sref, _step_entries(c.I, segs)
@@ -698,11 +698,10 @@ def rule_steps(rep: Report, rid_order="C07.order", rid_guard="C07.guard", rid_fr
             rep.ob(rid_order, f"{tag}: pickle.steps is a list built for this pickle", False, expected="fresh list",
                    found=fmt(sref, I) if sref else "no steps field", **kw)
             continue
-        o = I.obj(sref)
         if "fresh" in want:
-            act_ok = o.origin[0] != c.fi.qualname or e["level"] == "x"
-            rep.ob(rid_fresh, f"{tag}: pickle.steps is a new list per pickle", not o.segs or all(s[0] != "s" for s in o.segs),
-                   expected="list created for this pickle", found=f"allocated in {o.origin[0]} line {o.origin[1]}", **kw)
+            os_ = [I.obj(x) for x in nf.list_leaves(I, sref)]
+            rep.ob(rid_fresh, f"{tag}: pickle.steps is a new list per pickle", all(not o.segs or all(s[0] != "s" for s in o.segs) for o in os_),
+                   expected="list created for this pickle", found="; ".join(f"allocated in {o.origin[0]} line {o.origin[1]}" for o in os_), **kw)
         irregular = [x for x in ents if x[1][0] == "irregular"]
         if irregular or len(ents) != 2:
             rep.ob(rid_order, f"{tag}: pickle.steps = in-scope background steps then own steps", False,
@@ -801,18 +800,19 @@ def rule_tags(rep: Report, rid="C08.order", rid_tag="C08.tag") -> None:
                expected="{'astNodeId': tag['id'], 'name': tag['name']}", found=fmt(elt, I), **kw)
 
 
-def _fold_base(I: Interp, t, var, depth=0):
-    """Resolve the initial value of a carried variable through earlier loops that may be skipped."""
+def _fold_base(I: Interp, t, var, depth=0, also=()):
+    """Resolve the initial value of a carried variable through earlier loops that may be skipped (``also``: the name the
+    same fold goes by in the earlier loop, when it differs)."""
     if depth > 6:
         return t
-    if t[0] == "loopout" and t[2] == var:
+    if t[0] == "loopout" and (t[2] == var or t[2] in also):
         return ("after", t[1])
     if t[0] == "cond":
-        a, b = _fold_base(I, t[2], var, depth + 1), _fold_base(I, t[3], var, depth + 1)
+        a, b = _fold_base(I, t[2], var, depth + 1, also), _fold_base(I, t[3], var, depth + 1, also)
         for x, y in ((a, b), (b, a)):
             if x[0] == "after":
                 init = I.loops[x[1]].get("carried_init", {}).get(var)
-                if init is not None and _fold_base(I, init, var, depth + 1) == y:
+                if init is not None and _fold_base(I, init, var, depth + 1, also) == y:
                     return x        # skipping the earlier loop leaves its initial value
         return t
     return t
@@ -832,6 +832,7 @@ def rule_fold(rep: Report, rid="C10.fold", rid_set="C10.set") -> None:
                    expected="regular step loops", found="irregular steps list (see C07.order)", **kw)
             continue
         prev_loop = None
+        prev_var = None
         done = set()
         for which, (g, src, lid, elt) in zip(("background", "own"), ents):
             step = ("elem", lid)
@@ -853,7 +854,8 @@ def rule_fold(rep: Report, rid="C10.fold", rid_set="C10.set") -> None:
             upd = info.get("carried", {}).get(var)
             rep.ob(rid, f"{tag}: the type carried to the next {which} step is the type just assigned", upd == ty,
                    expected=fmt(ty, I), found=fmt(upd, I) if upd else None, **kw)
-            init = _fold_base(I, info.get("carried_init", {}).get(var, ("undef",)), var)
+            init = _fold_base(I, info.get("carried_init", {}).get(var, ("undef",)), var, also=(prev_var,) if prev_var else ())
+            prev_var = var
             if prev_loop is None or prev_loop == lid:
                 rep.ob(rid, f"{tag}: the fold starts from 'Unknown' for every pickle", is_const(init, "Unknown"),
                        expected="'Unknown' assigned per pickle", found=fmt(init, I), **kw)
@@ -1024,5 +1026,5 @@ def rule_input(rep: Report, rid="C15.input") -> None:
         line = c.line_of(e["node"])
         for k in ("astNodeIds", "tags", "steps"):
             v = d.get(k, (NONE,))[0] if d else NONE
-            rep.ob(rid, f"{e['level']}-level {e['kind']}: pickle.{k} is a new list, not a list of the AST", v[0] == "ref" and not rooted_in_doc(v),
+            rep.ob(rid, f"{e['level']}-level {e['kind']}: pickle.{k} is a new list, not a list of the AST", nf.list_leaves(I, v) is not None and not any(rooted_in_doc(x) for x in nf.list_leaves(I, v)),
                    expected="list allocated by the compiler", found=fmt(v, I), **_kw(c, line, _fn_at(c, line)))
